@@ -208,7 +208,7 @@ def main(tier: str, only: list[dict] | None = None) -> int:
     if only is None:
         # (PtLowerB: broadcasting arithmetic, where, reductions, einsum, advanced indexing)
         for cfg in (["PtLower.cfg", "PtLowerB.cfg"] if tier == "quick"
-                    else ["PtLower.cfg", "PtLower3.cfg", "PtLowerB.cfg"]):
+                    else ["PtLower.cfg", "PtLower3.cfg", "PtLowerB.cfg", "PtLowerB3.cfg"]):
             r = tlc.run_tlc("PtLower", cfg, workers=4, timeout=1200)
             if r.error or r.violated:
                 raise MachineryError(f"PtLower ({cfg}): the specification's own lowering rules "
